@@ -56,6 +56,13 @@ def generate(seed, tier):
         block['eqs'].append(['trend', '1.0 + 0.1*k'])
         if S['swarm'].random() < 0.5:
             block['eqs'][0][1] += ' + 0.01*k'
+    if S['swarm'].random() < 0.12:
+        # a parameter written in scientific notation, used as a divisor and read with a lag
+        block['eqs'].append(['sc', S['swarm'].choice(['1e2', '2.5e-1', '1E1', '5e-1', '1e+1'])])
+        block['eqs'].append(['dv', '%s/sc' % block['eqs'][0][0]])
+        if S['swarm'].random() < 0.5:
+            block['lags'].append(['LAG_sc', 'sc', 'k'])
+            block['eqs'].append(['dl', 'LAG_sc + 1.0'])
     ta = S['swarm'].choice(['default', 'default', 'user_lag', 'user_exo', 'user_const', 'user_k'])
     if ta == 'user_lag':
         block['eqs'].append(['t', 'LAG_t + 1.0'])
